@@ -247,6 +247,59 @@ func (x *Exec) frontBuiltin(env *SpecEnv, st *State, name string, args []TV) (TV
 			return TV{VScalar{IntLit(int64(len(calls(n))))}, intT}, true
 		}
 		return TV{}, false
+	case "jsonvalid":
+		// jsonvalid(s): json.Valid([]byte(s)) (the same uninterpreted predicate the code sees)
+		if len(args) == 1 {
+			t := env.term(args[0])
+			if t.Sort == SStr {
+				t = App(SBytes, "bytes.ofstr", t)
+			}
+			f := x.sym.Func("json.valid", []Sort{SBytes}, SBool)
+			return TV{VScalar{App(SBool, f, t)}, boolT}, true
+		}
+		return TV{}, false
+	case "isstring", "strval", "isptrto":
+		// dynamic type tests on an interface value: isstring(v), strval(v), isptrto(v, "Recv")
+		if len(args) < 1 {
+			return TV{}, false
+		}
+		iv, ok := x.force(st, args[0].V).(VIface)
+		if !ok {
+			return TV{}, false
+		}
+		if iv.Dyn == nil {
+			// unknown dynamic type: nothing is known
+			switch name {
+			case "strval":
+				return TV{VScalar{x.sym.Fresh("strval.unknown", SStr)}, types.Typ[types.String]}, true
+			default:
+				return TV{VScalar{x.sym.Fresh(name+".unknown", SBool)}, boolT}, true
+			}
+		}
+		switch name {
+		case "isstring":
+			b, isB := iv.Dyn.Underlying().(*types.Basic)
+			return TV{VScalar{And(Not(iv.Nil), BoolLit(isB && b.Kind() == types.String))}, boolT}, true
+		case "strval":
+			if sc, ok := x.force(st, iv.Val).(VScalar); ok && sc.T.Sort == SStr {
+				return TV{sc, types.Typ[types.String]}, true
+			}
+			return TV{VScalar{x.sym.Fresh("strval.unknown", SStr)}, types.Typ[types.String]}, true
+		case "isptrto":
+			want, _ := litArg(1)
+			pt, isP := iv.Dyn.Underlying().(*types.Pointer)
+			okT := false
+			if isP {
+				tn := types.TypeString(pt.Elem(), func(*types.Package) string { return "" })
+				okT = strings.HasSuffix(tn, want)
+			}
+			nn := TTrue
+			if p, ok := x.force(st, iv.Val).(VPtr); ok {
+				nn = Not(p.Nil)
+			}
+			return TV{VScalar{And(Not(iv.Nil), BoolLit(okT), nn)}, boolT}, true
+		}
+		return TV{}, false
 	case "sameslice":
 		// sameslice(a, b): the two slice values denote the same elements (same backing array, offset, length)
 		if len(args) == 2 {
@@ -439,6 +492,10 @@ func (x *Exec) frontBuiltin(env *SpecEnv, st *State, name string, args []TV) (TV
 		m, ok := x.force(st, args[0].V).(VMap)
 		if !ok || m.Obj < 0 {
 			return TV{VScalar{TFalse}, boolT}, true
+		}
+		if ms, ok := st.heap[m.Obj].(MapSS); ok {
+			// map[string]string: presence is is-some of the array cell
+			return TV{VScalar{Not(App(SBool, "is-none", App(SOptS, "select", ms.A, env.term(args[1]))))}, boolT}, true
 		}
 		if mg, ok := st.heap[m.Obj].(*MapGen); ok {
 			k := env.term(args[1])
